@@ -6,7 +6,7 @@ Prints the mutants no check detects. Usage: tools/mutsweep.py [--workers N] [--o
 import json, os, re, subprocess, sys, shutil, hashlib, concurrent.futures as cf, threading, time
 
 ROOT = os.path.dirname(os.path.dirname(os.path.abspath(__file__)))
-REPO = "/repo"
+REPO = os.environ.get("MUT_REPO", "/repo")
 WORK = "/tmp/ms"
 PROPS = ["C01", "C02", "C03", "C04", "C05", "C06", "C07", "C08", "C09", "C10", "C11", "C12", "C13", "C14", "C15", "C16", "C17", "C18"]
 
@@ -100,6 +100,7 @@ def gen_mutants(only=None):
 
 
 lock = threading.Lock()
+FIRST_ONLY = "--first" in sys.argv   # stop at the first check that detects the mutant (finding survivors is the point)
 
 
 def run_one(worker, k, mut, outf):
@@ -128,6 +129,8 @@ def run_one(worker, k, mut, outf):
             q = subprocess.run([os.path.join(ROOT, "check"), prop], env=env2, capture_output=True, text=True)
             if q.returncode == 1:
                 det.append(prop)
+                if FIRST_ONLY:
+                    break
             elif q.returncode != 0:
                 mach.append(prop)
         rec["status"] = "detected" if det else ("machinery" if mach else "SURVIVED")
@@ -152,6 +155,7 @@ def main():
         OPS = OPS2
         muts = [m for m in gen_mutants(only) if m[4] != "delete statement"]
         WORK = "/tmp/ms2"
+        PROPS = ["C01", "C02", "C14", "C13", "C04", "C08", "C11", "C10", "C12", "C18", "C17", "C09", "C07", "C06", "C03", "C05", "C15", "C16"]
     elif "--type-level" in args:
         muts = gen_type_mutants()
         PROPS = ["C15", "C16"]
